@@ -184,6 +184,68 @@ theorem mig13_6_within (f : JO) : allActions NamesWithinLimits (mig13_6 f) := by
     · rename_i ns hns; exact absurd hns (hne ns)
     · trivial
 
+/-! ## 13.6: routers — result name and category names within the limits, for every node -/
+
+/-- every node object of the definition -/
+def allNodes (P : JO → Prop) (f : JO) : Prop :=
+  match get "nodes".toList f with
+  | some (.arr ns) => allObjs P ns
+  | _ => True
+
+def CategoryNameWithin (c : JO) : Prop := ∀ n, get "name".toList c = some (.str n) → n.length ≤ 36
+
+/-- the node's router, when it is an object: its result name has at most 64 characters and each of its category objects' names at most 36 -/
+def RouterWithinLimits (n : JO) : Prop :=
+  ∀ r, get "router".toList n = some (.obj r) →
+    (∀ rn, get "result_name".toList r = some (.str rn) → rn.length ≤ 64) ∧
+    (∀ cs, get "categories".toList r = some (.arr cs) → allObjs CategoryNameWithin cs)
+
+theorem router13_6_within (r : JO) :
+    (∀ rn, get "result_name".toList (router13_6 r) = some (.str rn) → rn.length ≤ 64) ∧
+    (∀ cs, get "categories".toList (router13_6 r) = some (.arr cs) → allObjs CategoryNameWithin cs) := by
+  unfold router13_6
+  simp only
+  split
+  · rename_i cats hcats
+    constructor
+    · intro rn hrn
+      rw [get_set_ne _ _ _ (by decide)] at hrn
+      exact limKey_within _ 64 r rn hrn
+    · intro cs hcs
+      rw [get_set_eq] at hcs
+      cases hcs
+      exact allObjs_mapObjs _ CategoryNameWithin (fun _ c n hn => limKey_within _ 36 c n hn) () cats
+  · rename_i hne
+    constructor
+    · intro rn hrn
+      exact limKey_within _ 64 r rn hrn
+    · intro cs hcs
+      exact absurd hcs (hne cs)
+
+theorem node13_6_router (n : JO) : RouterWithinLimits (node13_6 n) := by
+  intro r hr
+  simp only [node13_6] at hr
+  split at hr
+  · rw [get_set_eq] at hr
+    cases hr
+    exact router13_6_within _
+  · rename_i hne
+    exact absurd hr (hne r)
+
+/-- **After 13.6 every router's result name and category names are within the limits.** -/
+theorem mig13_6_routers (f : JO) : allNodes RouterWithinLimits (mig13_6 f) := by
+  unfold mig13_6 onKeyArr
+  split
+  · rename_i ns hns
+    simp only [allNodes]
+    rw [get_set_eq]
+    exact allObjs_mapObjs _ RouterWithinLimits (fun _ n => node13_6_router n) () ns
+  · rename_i hne
+    unfold allNodes
+    split
+    · rename_i ns hns; exact absurd hns (hne ns)
+    · trivial
+
 /-- the statements are not vacuous: a definition with one node and an over-long `set_run_result` name -/
 def sample : JO :=
   .cons "nodes".toList (.arr (.cons (.obj (.cons "actions".toList (.arr (.cons (.obj
